@@ -250,6 +250,28 @@ class IndexedList(list):
         self._delindex(obj)
 
 
+def _syncChildren(parent, wanted, managed=None, before=None):
+    """Make the managed children of `parent` exactly the elements in `wanted`, in that order.
+
+    `managed(child)` tells which of the existing children are under the control of the
+    caller (all of them by default); the other children keep their place. The wanted
+    elements go where the first managed child was, or in front of the child `before`
+    (at the end if it is not given) when there was none.
+    """
+    wanted = list(wanted)
+    kept = []
+    pos = None
+    for child in parent:
+        if managed is None or managed(child) or child in wanted:
+            if pos is None:
+                pos = len(kept)
+        else:
+            kept.append(child)
+    if pos is None:
+        pos = kept.index(before) if before in kept else len(kept)
+    parent[:] = kept[:pos] + wanted + kept[pos:]
+
+
 def _correctValInNode(outernode, tagname, value):
     innernode = outernode.find(tag(tagname))
     if value is None and innernode is not None:
